@@ -151,6 +151,11 @@ def main():
         import translate
         with vlib.BuildLock():
             gen_info = translate.regenerate()
+        # a generated file that could not be produced breaks an obligation of the properties whose Coq closure contains it - and only those
+        needed = translate.coq_closure(list(mod.VO) + ['theories/' + m.replace('.', '/') + '.vo' for m in mod.PROPS_MODULE.split()])
+        for gname, gi in gen_info.items():
+            if 'error' in gi and ('Gen.' + gname[:-2]) in needed:
+                broken.append(('translate:' + gname, gi['error']))
     except Exception as e:
         broken.append(('translate', '%s: %s' % (type(e).__name__, e)))
     ok, log = vlib.coq_make(mod.VO, timeout=3000, clean=(tier == 'thorough' and os.environ.get('VERIF_CLEAN', '1') == '1' and False))
